@@ -105,7 +105,7 @@ func argStrings(t argT, v *big.Int) []string {
 			return []string{"1"}
 		}
 		return []string{"0"}
-	case "array":
+	case "array", "slice":
 		// IOArg.Parse: the hex digits list the elements, element 0 first.
 		s := "0x"
 		for i := 0; i*t.Elem < t.Bits; i++ {
@@ -206,7 +206,11 @@ func prepare(s Session) (*prepared, error) {
 			if key == "" {
 				key = "gen:" + p.src
 			}
-			c, err := compiledCircuit(key, p.src)
+			var sizes [][]int
+			if fp := fixedByName(s.Prog); fp != nil {
+				sizes = fp.Sizes
+			}
+			c, err := compiledCircuit(key, p.src, sizes)
 			if err != nil {
 				return nil, fmt.Errorf("compile: %v", err)
 			}
@@ -688,6 +692,9 @@ func layout(p *prepared, r *runResult) ([]Seg, error) {
 		eg.u32("op-result")
 		eg.take(16*nout, "output-labels")
 	}
+	if p.s.OT == "co" {
+		ge.segs = splitCOCiphertexts(ge.segs, r.Trans[0], p.ny)
+	}
 	for _, w := range []*walker{ge, eg} {
 		if w.err != nil {
 			return nil, w.err
@@ -699,6 +706,45 @@ func layout(p *prepared, r *runResult) ([]Seg, error) {
 	}
 	return append(ge.segs, eg.segs...), nil
 }
+
+// splitCOCiphertexts marks the label ciphertexts of the CO OT (the last 2*ny
+// records "length 16 + 16 bytes" of the garbler's OT messages) as kind
+// ot-labels: a flipped ciphertext bit is a flipped bit of the label the
+// evaluator decrypts.
+func splitCOCiphertexts(segs []Seg, data []byte, ny int) []Seg {
+	var res []Seg
+	for _, sg := range segs {
+		n := 40 * ny
+		if sg.Kind != "ot" || sg.Dir != 0 || ny == 0 || sg.End-sg.Start < n {
+			res = append(res, sg)
+			continue
+		}
+		start := sg.End - n
+		ok := true
+		for i := 0; i < 2*ny; i++ {
+			if binary.BigEndian.Uint32(data[start+20*i:]) != 16 {
+				ok = false
+			}
+		}
+		if !ok {
+			res = append(res, sg)
+			continue
+		}
+		if start > sg.Start {
+			res = append(res, Seg{Dir: 0, Start: sg.Start, End: start, Kind: "ot"})
+		}
+		for i := 0; i < 2*ny; i++ {
+			o := start + 20*i
+			res = append(res, Seg{Dir: 0, Start: o, End: o + 4, Kind: "ot"},
+				Seg{Dir: 0, Start: o + 4, End: o + 20, Kind: "ot-labels"})
+		}
+	}
+	return res
+}
+
+// labelKinds are the message kinds that consist of 16-byte labels.
+var labelKinds = map[string]bool{"garbler-input-labels": true, "output-labels": true,
+	"rows": true, "ot-labels": true}
 
 // ---------------------------------------------------------------------------
 
